@@ -900,6 +900,58 @@ def _(M, a):
     return None
 
 
+# sync.WaitGroup: the counter lives in the machine, keyed by the cell of the WaitGroup (see Machine.gor_* for the goroutine model)
+def _wg(M, p):
+    d = M.env.setdefault('waitgroups', {})
+    k = id(p.cell) if hasattr(p, 'cell') else id(p)
+    path = tuple(getattr(p, 'path', ()) or ())
+    return d.setdefault((k, path), [0, p])
+
+
+@intr('(*sync.WaitGroup).Add')
+def _(M, a):
+    w = _wg(M, a[0])
+    w[0] += M.cint(a[1])
+    if w[0] < 0:
+        raise GoPanic('explicit', 'sync: negative WaitGroup counter', '')
+    return None
+
+
+@intr('(*sync.WaitGroup).Done')
+def _(M, a):
+    w = _wg(M, a[0])
+    w[0] -= 1
+    if w[0] < 0:
+        raise GoPanic('explicit', 'sync: negative WaitGroup counter', '')
+    return None
+
+
+@intr('(*sync.WaitGroup).Wait')
+def _(M, a):
+    w = _wg(M, a[0])
+    if w[0] > 0:
+        M.gor_block(lambda: w[0] <= 0, 'sync.WaitGroup.Wait')
+    return None
+
+
+@intr('(*sync.WaitGroup).Go')
+def _(M, a):
+    w = _wg(M, a[0])
+    w[0] += 1
+    f = a[1]
+
+    class _Done:
+        pass
+    # run f in a goroutine, then Done: expressed through a Python-level closure marker understood by call_value
+    M.gor_spawn(_WgGo(f, w), [])
+    return None
+
+
+class _WgGo:
+    def __init__(self, f, w):
+        self.f, self.w = f, w
+
+
 # sync.Map: the state lives in field 0 of the struct as a GoMap
 def _syncmap(M, p):
     st = M.load(p)
